@@ -21,11 +21,14 @@ UaRule(ua, rules, D) ==
   LET S == {i \in 1..Len(rules) : HasSub(ua, Needle(rules[i], D))}
   IN IF S = {} THEN 0 ELSE CHOOSE i \in S : \A j \in S : i <= j
 
-\* x == [hasUa, ua, matched, label (lower case of the matched label's name, "" when none)]
+\* x == [hasUa, ua, matched, label (lower case of the matched label's name, "" when none), db (a database is configured)]
+\* without a database neither a label nor a rule is looked up
+\* responses carry no verdict at all: the code prints "none" for every response
+RespDiagnosis == "none"
 Diagnose(x, rules, D) ==
   IF ~x.hasUa THEN "anonymous"
   ELSE LET m == UaRule(x.ua, rules, D) IN
-       IF m = 0 \/ ~x.matched THEN "none"
+       IF m = 0 \/ ~x.matched \/ ~x.db THEN "none"
        ELSE IF rules[m].kl = x.label THEN "generic" ELSE "dishonest"
 
 (* ---- the same as a state machine: pc walks seen -> labelled -> ruled -> done ---- *)
@@ -35,7 +38,7 @@ DInit(X) == pc = "seen" /\ req \in X /\ rule = 0 /\ diag = "unset"
 MatchLabel == pc = "seen" /\ pc' = "labelled" /\ UNCHANGED <<req, rule, diag>>
 MatchRule(rules, D) ==
   /\ pc = "labelled" /\ pc' = "ruled"
-  /\ rule' = IF req.hasUa THEN UaRule(req.ua, rules, D) ELSE 0
+  /\ rule' = IF req.hasUa /\ req.db THEN UaRule(req.ua, rules, D) ELSE 0
   /\ UNCHANGED <<req, diag>>
 Conclude(rules) ==
   /\ pc = "ruled" /\ pc' = "done"
